@@ -37,7 +37,7 @@ type Scenario struct {
 const SinkA = `Alpha one
 =========
 
-## Beta *two* {#idA}
+## Beta *two* {#idA .clsA data-a="vA"}
 
 - tight1
 - tight2
@@ -56,6 +56,16 @@ lazyA
 ` + "```go&#67;A x&amp;A\nfencedA\n```" + `
 
 <div>htmlA</div>
+
+***
+
+	codeTabA
+
+a <!-- cmtA --> <?piA?> b
+
+漢字A
+かなA 全角A
+mixA漢
 
 [refA]: /url&#68;A "title&#69;A"
 
@@ -92,7 +102,7 @@ TermA
 const SinkB = `Bravo uno
 =========
 
-## Delta *dos* {#idB}
+## Delta *dos* {#idB .clsB data-b='vB'}
 
 - sharp1
 - sharp2
@@ -111,6 +121,16 @@ lazyB
 ` + "~~~~rb&#x63;B y&lt;B\nfencedB\n~~~~" + `
 
 <div>htmlB</div>
+
+___
+
+	codeTabB
+
+a <!-- cmtB --> <?piB?> b
+
+日本B
+カナB 半角B
+mixB字
 
 [refB]: /url&#x64;B 'title&#x65;B'
 
@@ -179,6 +199,7 @@ func converts(warmup bool, docs ...string) func(cfg core.Cfg) *Instance {
 
 // Scenarios lists all drivers.
 var Scenarios = []Scenario{
+	{"S0-convert2-micro-first", "two goroutines Convert two one-line documents on a new shared Markdown: the executions are almost entirely lazy initialisation, which is where a second preemption matters", 2, converts(false, "a *b*\n", "# c\n")},
 	{"S1-convert2-tiny-first", "two goroutines Convert two tiny documents on a new shared Markdown (first use races)", 2, converts(false, tiny1, tiny2)},
 	{"S2-convert2-sink-first", "two goroutines Convert two kitchen-sink documents (same constructs, different literals) on a new shared Markdown", 2, converts(false, SinkA, SinkB)},
 	{"S3-convert2-sink-warm", "as S2 on a warmed-up instance", 2, converts(true, SinkA, SinkB)},
